@@ -131,7 +131,7 @@ type Check struct {
 	// Confirm re-executes one failure without the explorer (the property's Replay); every
 	// reported violation is re-run 4 more times and the result printed with it.
 	Confirm func(f Failure) (kind, what string)
-	hitCap     atomic.Bool
+	hitCap  atomic.Bool
 }
 
 // FamilyStat is reported per family in the evidence.
